@@ -31,6 +31,44 @@ impl Universe {
         for x in ["xx", "qqq", "abcde", "und", "zzzzzzzz"] {
             ls.push(x.to_string());
         }
+        // near neighbours of known languages: a known code extended to a 5-8 letter language subtag, a
+        // 3-letter code cut to 2 letters, a 2-letter code extended to 3 (a lookup that keys on a prefix, a
+        // truncated or a packed form of the subtag answers these with the neighbour's row)
+        let known: Vec<String> = {
+            let mut k = ls.clone();
+            k.sort();
+            k.dedup();
+            k
+        };
+        for (i, l) in known.iter().enumerate() {
+            if !refspec::is_lang(l.as_bytes()) || l == "und" {
+                continue;
+            }
+            match i % 8 {
+                0 => ls.push(format!("{}{}", l, &"xyzxyz"[..5 - l.len()])),
+                1 => ls.push(format!("{}{}", l, &"abcdefgh"[..8 - l.len()])),
+                2 if l.len() == 3 => ls.push(l[..2].to_string()),
+                3 if l.len() == 2 => ls.push(format!("{}q", l)),
+                4 => ls.push(format!("{}{}", l, &"ino"[..3].repeat(2)[..6 - l.len()])),
+                _ => {}
+            }
+        }
+        // the real-world lexicon: deprecated / macro / special codes, private-use and exceptional regions and scripts
+        for x in crate::lexicon::LANGS {
+            if refspec::is_lang(x.as_bytes()) {
+                ls.push(x.to_string());
+            }
+        }
+        for x in crate::lexicon::SCRIPTS {
+            if refspec::is_script(x.as_bytes()) {
+                ss.push(x.to_string());
+            }
+        }
+        for x in crate::lexicon::REGIONS {
+            if refspec::is_region(x.as_bytes()) {
+                rs.push(x.to_string());
+            }
+        }
         for x in ["Xxxx", "Zzzz", "Aaaa"] {
             ss.push(x.to_string());
         }
